@@ -93,6 +93,12 @@ impl Overrides {
             return;
         }
         states.cleanup();
+        // The modifiers count wherever they are in the list: they may have been pressed after the key.
+        for kc in kcs.iter().copied() {
+            if let Some(mod_mask) = mask_for_key(kc.into()) {
+                states.mods_pressed |= mod_mask;
+            }
+        }
         for kc in kcs.iter().copied() {
             states.update(kc.into(), self);
         }
